@@ -45,6 +45,19 @@ func (P *Prog) nodeUnits(nf *ssa.Function) []*nodeUnit {
 	if m, ok := P.unitsMemo[nf]; ok {
 		return m
 	}
+	out := P.unitsOf(nf, false)
+	if P.unitsMemo == nil {
+		P.unitsMemo = map[*ssa.Function][]*nodeUnit{}
+	}
+	P.unitsMemo[nf] = out
+	return out
+}
+
+// allUnits: like nodeUnits, but every module helper is a unit, also the pure
+// ones (a helper that only computes a value, such as the choice of a map).
+func (P *Prog) allUnits(nf *ssa.Function) []*nodeUnit { return P.unitsOf(nf, true) }
+
+func (P *Prog) unitsOf(nf *ssa.Function, pure bool) []*nodeUnit {
 	var out []*nodeUnit
 	var add func(u *nodeUnit, depth int, chain map[*ssa.Function]bool)
 	add = func(u *nodeUnit, depth int, chain map[*ssa.Function]bool) {
@@ -75,7 +88,7 @@ func (P *Prog) nodeUnits(nf *ssa.Function) []*nodeUnit {
 				return
 			}
 			callee := ci.static
-			if callee.Blocks == nil || callee.Parent() != nil || !inModule(funcPkgPath(callee)) || chain[callee] || P.isAnchorFn(callee) || !P.relevantFn(callee) {
+			if callee.Blocks == nil || callee.Parent() != nil || !inModule(funcPkgPath(callee)) || chain[callee] || P.isAnchorFn(callee) || !pure && !P.relevantFn(callee) {
 				return
 			}
 			if _, isD := P.sharedCatchAnalysis().dispatchCallee(ci); isD {
@@ -100,10 +113,6 @@ func (P *Prog) nodeUnits(nf *ssa.Function) []*nodeUnit {
 		})
 	}
 	add(&nodeUnit{fn: nf, env: map[ssa.Value]ssa.Value{}}, 0, map[*ssa.Function]bool{})
-	if P.unitsMemo == nil {
-		P.unitsMemo = map[*ssa.Function][]*nodeUnit{}
-	}
-	P.unitsMemo[nf] = out
 	return out
 }
 
@@ -214,4 +223,63 @@ func (P *Prog) schemaLoopRegions(nf *ssa.Function) []*loopRegion {
 		}
 	}
 	return out
+}
+
+// closedCallSites returns the static call sites of a module function that can
+// only ever run from them: fn is a named, unexported function or method that is
+// never used as a value (func value, method value, bound closure) and that no
+// interface call of the module can dispatch to. closed=false otherwise.
+func (P *Prog) closedCallSites(fn *ssa.Function) (sites []ssa.CallInstruction, closed bool) {
+	fn = originOf(fn)
+	if fn.Object() == nil || fn.Object().Exported() || fn.Parent() != nil || fn.Blocks == nil {
+		return nil, false
+	}
+	closed = true
+	isMethod := fn.Signature.Recv() != nil
+	for _, caller := range P.Funcs {
+		eachInstr(caller, func(_ *ssa.BasicBlock, _ int, in ssa.Instruction) {
+			if ci := callOf(in); ci != nil {
+				if ci.static == fn {
+					if _, isGo := in.(*ssa.Go); isGo {
+						closed = false
+					}
+					sites = append(sites, ci.instr)
+				}
+				if isMethod && ci.invoke != nil && ci.invoke.Name() == fn.Name() {
+					closed = false
+				}
+			}
+			var ops []*ssa.Value
+			for k, op := range in.Operands(ops) {
+				f, isF := (*op).(*ssa.Function)
+				if !isF || originOf(f) != fn {
+					continue
+				}
+				if c, isCall := in.(ssa.CallInstruction); isCall && k == 0 && !c.Common().IsInvoke() {
+					continue // the callee operand of a static call
+				}
+				closed = false
+			}
+		})
+	}
+	return sites, closed
+}
+
+// withCallSite runs f with fn's parameters bound to the actual arguments of
+// the call (on top of the bindings already in force).
+func withCallSite(site ssa.CallInstruction, fn *ssa.Function, f func()) {
+	saved := substEnv
+	env := map[ssa.Value]ssa.Value{}
+	for k, v := range saved {
+		env[k] = v
+	}
+	args := site.Common().Args
+	for i, prm := range fn.Params {
+		if i < len(args) {
+			env[prm] = args[i]
+		}
+	}
+	substEnv = env
+	defer func() { substEnv = saved }()
+	f()
 }
